@@ -16,7 +16,7 @@
              `and / or / not` with Python's operand-returning semantics and truthiness,
              conditional expressions, tuple/list literals, indexing (negative indices as in Python),
              builtins (`len int bool min max abs range list tuple`, `reduce(mul, it, init)`, `xs.index(v)`,
-             `zip(xs, ys)`),
+             `zip(xs, ys)`, `d.items()`),
              `any(c for x in it)`, `all(c for x in it)`, `[e for x in it if c]`,
              and calls of EXTERNAL functions, whose meaning is a parameter `X` of the interpreter
              (supplied — and thereby documented — by the theorem that uses it).
@@ -138,6 +138,8 @@ inductive Builtin where
   | index
   /-- `zip(xs, ys)` of two lists, consumed at once: the list of pairs, as long as the shorter one -/
   | zip
+  /-- `d.items()`, consumed at once: the list of (key, value) pairs in insertion order -/
+  | items
 deriving Repr, DecidableEq
 
 inductive Expr where
@@ -335,6 +337,7 @@ def builtin (f : Builtin) (args : List Val) : Res Val :=
     | .raise e => .raise e
     | .stuck => .stuck
   | .zip, [.list xs, .list ys] => .ok (.list (List.zipWith (fun a b => Val.list [a, b]) xs ys))
+  | .items, [.dict kvs] => .ok (.list (kvs.map fun kv => Val.list [kv.1, kv.2]))
   | .int, [v] => match v.asInt with | some a => .ok (.int a) | Option.none => .stuck
   | .bool, [v] => v.truthy.map .bool
   | .abs, [.int a] => .ok (.int a.natAbs)
